@@ -4,6 +4,7 @@ Quantifiers: every capacity, every finite sequence of acquire/release operations
 number of tags (unbounded), every interleaving of blocking acquirers with releasers.
 -/
 import S3V.Lemmas.Sema
+import S3V.Props.Serial
 
 namespace S3V.C12
 open S3V.Sema
@@ -363,5 +364,11 @@ example : (step (run (Sws.init 3) [Op.acquire 0, .release 0 0]) (.release 0 1)).
 example : brun (BState.init 1) [.acquire 1 0, .acquire 2 0, .release 0 0, .wake 2 0, .release 0 1]
     = some { sws := { count := 1, tags := [(0, { next := 2, lowest := 2, pending := [] })] },
              waiting := [], notified := [] } := by decide
+
+/-- **Permit conservation on a serial manager**: after a transfer — whatever raised, Ctrl-C included —
+every permit taken by `BoundedExecutor.submit` has been given back (D19) -/
+theorem serial_permits_restored (plan : List S3V.Serial.Task) (hwf : S3V.Serial.WF plan) :
+    (S3V.Serial.manager S3V.Serial.Tables.current plan).1.permits = 0 :=
+  (S3V.Serial.serial_outcome plan hwf).2.1
 
 end S3V.C12
